@@ -3,13 +3,14 @@ C09 — Exceptions reach the nearest matching handler and unwind cleanly.
 -/
 import ZnVerif.Model.Interp
 import ZnVerif.Proofs.Handlers
+import ZnVerif.Proofs.StackBalBlock
 import ZnVerif.Proofs.Toy
 set_option linter.unusedSectionVars false
 set_option linter.unusedSimpArgs false
 set_option linter.unusedVariables false
 
 namespace ZnVerif.Properties.C09
-open ZnVerif.Model ZnVerif.Proofs.Calls
+open ZnVerif.Model ZnVerif.Proofs.Calls ZnVerif.Proofs.StackBal
 
 variable {ν : Type} [NumOps ν]
 
@@ -42,14 +43,15 @@ theorem break_is_signal (n ln : Nat) (s : VM ν) :
 
 /-! ## handlers (`handleExceptionSignal`) -/
 
-/-- the error of a protected body goes to the block's handlers, with the module and the call depth of the block's
-entry (both read before anything of the block runs) -/
+/-- the error of a protected body goes to `finishBlock` — loop signals become exceptions, then the block's handlers —
+with the module and the call depth of the block's entry (both read before anything of the block runs) -/
 theorem body_error_goes_to_handlers (n : Nat) (inputs : List Ident) (body : Option (List Stmt))
     (catches : List (Option Ident × Option (List Stmt))) (params : List Addr) (s s1 s2 : VM ν) (e : Err)
     (hlen : params.length = inputs.length)
     (hpro : (do bindThis s; bindInputs inputs params : M ν Unit) s = (.ok (), s1))
     (hbody : evalStmtBlock n body s1 = (.err e, s2)) :
-    execBlockBody n inputs body catches params s = handleException n s.csModuleID s.stack.length catches e s2 := by
+    execBlockBody n inputs body catches params s =
+      finishBlock n s.csModuleID s.stack.length catches (.err e) s2 := by
   unfold execBlockBody
   have hne : ¬ params.length ≠ inputs.length := by simp [hlen]
   rw [M_bind_def] at hpro ⊢
@@ -60,7 +62,27 @@ theorem body_error_goes_to_handlers (n : Nat) (inputs : List Ident) (body : Opti
   rw [bind_ok hpro]
   unfold Model.tryCatch
   rw [hbody]
-  rfl
+
+/-- an error that is not a loop signal goes to the handlers as it is; what a handler makes of it is the body's value -/
+theorem handled_error_is_body_value (n : Nat) (bm : Int) (bd : Nat)
+    (catches : List (Option Ident × Option (List Stmt))) (e : Err) (t t' : VM ν) (v : Addr)
+    (he : isSig e = false) (hh : handleException n bm bd catches e t = (.ok v, t')) :
+    finishBlock n bm bd catches (.err e) t = (.ok v, t') := finish_handled n bm bd catches e t t' v he hh
+
+/-- …and an error no handler takes leaves the body unchanged (if it is not a loop signal of the handler block) -/
+theorem unhandled_error_leaves_body (n : Nat) (bm : Int) (bd : Nat)
+    (catches : List (Option Ident × Option (List Stmt))) (e e2 : Err) (t t' : VM ν)
+    (he : isSig e = false) (he2 : isSig e2 = false) (hh : handleException n bm bd catches e t = (.err e2, t')) :
+    finishBlock n bm bd catches (.err e) t = (.err e2, t') := finish_unhandled n bm bd catches e e2 t t' he he2 hh
+
+/-- 结束循环 / 继续循环 that no loop of the body consumed: the body behaves as if it had raised a fresh 异常 value -/
+theorem loop_signal_becomes_exception (n : Nat) (bm : Int) (bd : Nat)
+    (catches : List (Option Ident × Option (List Stmt))) (t : VM ν) :
+    finishBlock n bm bd catches (.err .sigBreak) t =
+      finishBlock n bm bd catches (.err (.excErr t.heap.size)) { t with heap := t.heap.push (.exc "收到「结束」中断信号") } ∧
+    finishBlock n bm bd catches (.err .sigContinue) t =
+      finishBlock n bm bd catches (.err (.excErr t.heap.size)) { t with heap := t.heap.push (.exc "收到「继续」中断信号") } :=
+  finish_loop_signal n bm bd catches t
 
 /-- the first handler whose class name equals the exception's class name runs; the handlers after it play no role
 (`post` is arbitrary), the ones before it are passed over -/
@@ -160,7 +182,7 @@ theorem runHandlerA_run (n : Nat) (bm : Int) (bd : Nat) (ex : Addr) (blk : Optio
   cases r <;> rfl
 
 /-- the value of a handled block is the handler's 输出 value (its frame's return slot), or a fresh 空 -/
-theorem handler_value_or_null (n : Nat) (bm : Int) (bd : Nat) (ex : Addr) (blk : Option (List Stmt))
+theorem handler_value_or_null_of_stack (n : Nat) (bm : Int) (bd : Nat) (ex : Addr) (blk : Option (List Stmt))
     (s s3 : VM ν) (x : Option Addr) (fr : Frame) (rest : List Frame) (hbm : 0 ≤ bm)
     (hrun : evalPureStmtBlock n blk (handlerEntry bm bd ex s) = (.ok x, s3)) (hst : s3.stack = fr :: rest) :
     (∀ v, fr.ret = some v → (runHandlerA n bm bd ex blk s).1 = .ok v ∧ (runHandlerA n bm bd ex blk s).2.heap = s3.heap) ∧
@@ -173,84 +195,188 @@ theorem handler_value_or_null (n : Nat) (bm : Int) (bd : Nat) (ex : Addr) (blk :
   · intro v hv; rw [hv]; exact ⟨rfl, rfl⟩
   · intro hv; rw [hv]; exact ⟨rfl, rfl⟩
 
-/-- restoration: after a handled exception the call stack is exactly the stack the protected block was entered with —
-the frames of the calls that failed inside it (`extra`) are dropped, the exception frame is popped — hence the call
-depth, 其 (the top frame's receiver) and the current module are those of before.  The handler block itself is
-assumed to leave the stack as it found it up to its own frame (`hbal`). -/
+/-- after a handler block that ended normally its own frame is on top (with the frames below untouched) — no
+assumption: the block is balanced (`allBal`) -/
+theorem handler_block_keeps_its_frame (n : Nat) (bm : Int) (bd : Nat) (ex : Addr) (blk : Option (List Stmt))
+    (s s3 : VM ν) (x : Option Addr)
+    (hrun : evalPureStmtBlock n blk (handlerEntry bm bd ex s) = (.ok x, s3)) :
+    ∃ fr, s3.stack = fr :: (unwindTo bd s).2.stack ∧ fr.moduleId = bm ∧ fr.callType = 3 ∧ fr.this = some ex := by
+  have h := ((allBal (ν := ν) n).evalPureStmtBlock blk).same (handlerEntry bm bd ex s) (by rw [hrun]; rfl)
+  rw [hrun, (handler_entry_stack bm bd ex s).1] at h
+  obtain ⟨fr, hs, hc⟩ := norm_cons_eq h
+  exact ⟨fr, hs, congrArg Frame.moduleId hc, congrArg Frame.callType hc, congrArg Frame.this hc⟩
+
+/-- the value of a handled block is the return slot of the handler's frame, or a fresh 空 -/
+theorem handler_value_or_null (n : Nat) (bm : Int) (bd : Nat) (ex : Addr) (blk : Option (List Stmt))
+    (s s3 : VM ν) (x : Option Addr) (hbm : 0 ≤ bm)
+    (hrun : evalPureStmtBlock n blk (handlerEntry bm bd ex s) = (.ok x, s3)) :
+    (∀ v, s3.stack.head?.bind (·.ret) = some v →
+      (runHandlerA n bm bd ex blk s).1 = .ok v ∧ (runHandlerA n bm bd ex blk s).2.heap = s3.heap) ∧
+    (s3.stack.head?.bind (·.ret) = none → (runHandlerA n bm bd ex blk s).1 = .ok s3.heap.size ∧
+      (runHandlerA n bm bd ex blk s).2.heap = s3.heap.push .null) := by
+  obtain ⟨fr, hs, _⟩ := handler_block_keeps_its_frame n bm bd ex blk s s3 x hrun
+  have := handler_value_or_null_of_stack n bm bd ex blk s s3 x fr _ hbm hrun hs
+  rw [hs]
+  exact this
+
+/-- restoration: after a handled exception the call stack is the stack `st0` the protected block was entered with (up
+to `line` / `ret` of its top frame, which statements of the block have updated in place) — the frames of the calls
+that failed inside the block are dropped, the exception frame is popped — hence the call depth, 其 (the top frame's
+receiver) and the current module are those of before.  No assumption about the handler block. -/
 theorem catch_restores_stack (n : Nat) (bm : Int) (bd : Nat) (ex : Addr) (blk : Option (List Stmt))
-    (s s3 : VM ν) (extra st0 : List Frame) (x : Option Addr) (fr : Frame) (hbm : 0 ≤ bm)
-    (hs : s.stack = extra ++ st0) (hl : st0.length = bd)
-    (hrun : evalPureStmtBlock n blk (handlerEntry bm bd ex s) = (.ok x, s3)) (hbal : s3.stack = fr :: st0) :
-    (handlerEntry bm bd ex s).stack = { moduleId := bm, callType := 3, this := some ex } :: st0 ∧
+    (s s3 : VM ν) (st0 : List Frame) (x : Option Addr) (hbm : 0 ≤ bm)
+    (hext : Ext st0 s.stack) (hl : st0.length = bd)
+    (hrun : evalPureStmtBlock n blk (handlerEntry bm bd ex s) = (.ok x, s3)) :
     (∃ v, (runHandlerA n bm bd ex blk s).1 = .ok v) ∧
-    (runHandlerA n bm bd ex blk s).2.stack = st0 ∧
+    SameStack st0 (runHandlerA n bm bd ex blk s).2.stack ∧
     (runHandlerA n bm bd ex blk s).2.stack.length = bd ∧
     (runHandlerA n bm bd ex blk s).2.csModuleID = topModule st0 ∧
-    getThis (runHandlerA n bm bd ex blk s).2 = (.ok (st0.head?.bind (·.this)), (runHandlerA n bm bd ex blk s).2) ∧
-    (runHandlerA n bm bd ex blk s).2.scopes = s3.scopes ∧ (runHandlerA n bm bd ex blk s).2.out = s3.out := by
-  refine ⟨by rw [(handler_this_is_exception bm bd ex s).1, unwindTo_stack bd s extra st0 hs hl], ?_⟩
-  rw [runHandlerA_run n bm bd ex blk s hbm, hrun]
-  simp only
-  rw [bind_ok (getReturnValue_cons s3 fr st0 hbal), bind_ok (popFrame_cons s3 fr st0 hbal)]
-  have hthis : ∀ (t : VM ν), t.stack = st0 → getThis t = (.ok (st0.head?.bind (·.this)), t) := by
-    intro t ht
-    cases hst : st0 with
-    | nil => simp [getThis, topFrame, bind, ht, hst, pure]
-    | cons f r => rw [getThis_cons t f r (by rw [ht, hst])]; rfl
-  cases hret : fr.ret with
-  | some v =>
-    refine ⟨⟨v, rfl⟩, rfl, hl, rfl, hthis _ rfl, rfl, rfl⟩
-  | none =>
-    refine ⟨⟨_, rfl⟩, rfl, hl, rfl, hthis _ rfl, rfl, rfl⟩
+    getThis (runHandlerA n bm bd ex blk s).2 = (.ok (st0.head?.bind (·.this)), (runHandlerA n bm bd ex blk s).2) := by
+  obtain ⟨fr, hs3, _⟩ := handler_block_keeps_its_frame n bm bd ex blk s s3 x hrun
+  have hok : ∃ v, (runHandlerA n bm bd ex blk s).1 = .ok v ∧
+      (runHandlerA n bm bd ex blk s).2.csModuleID = topModule (runHandlerA n bm bd ex blk s).2.stack := by
+    rw [runHandlerA_run n bm bd ex blk s hbm, hrun]
+    simp only
+    rw [bind_ok (getReturnValue_cons s3 fr _ hs3), bind_ok (popFrame_cons s3 fr _ hs3)]
+    cases fr.ret <;> exact ⟨_, rfl, rfl⟩
+  obtain ⟨v, hv, hcs⟩ := hok
+  obtain ⟨⟨_, hsame⟩, _⟩ := runHandler_rel n (allBal (ν := ν) n).evalPureStmtBlock bm bd ex blk st0 s hext hl
+  obtain ⟨hst, hokeq⟩ := runHandler_vs_A n bm bd ex blk s
+  rw [hst, hokeq, hv] at hsame
+  have hS := hsame rfl
+  exact ⟨⟨v, hv⟩, hS, by rw [hS.length_eq, hl], by rw [hcs]; exact topModule_norm hS, getThis_of_norm hS⟩
+
+/-- call stacks are balanced: whatever ends normally — a method or program body (also through a handled exception), a
+call, a constructor, an expression, a statement, a block — leaves the call stack it started with, up to `line` /
+`ret` of the top frame (statements record their line there, 输出 its value); the frames below are untouched.
+By induction on fuel over the whole evaluator (`allBal`); true only since loop signals stop at body boundaries. -/
+theorem stack_balanced_on_success (n : Nat) :
+    (∀ b ps (s s' : VM ν) v, evalExecBlock n b ps s = (.ok v, s') → SameStack s.stack s'.stack) ∧
+    (∀ f ps (s s' : VM ν) v, execDirectFunction n f ps s = (.ok v, s') → SameStack s.stack s'.stack) ∧
+    (∀ r f ps (s s' : VM ν) v, execMethodFunction n r f ps s = (.ok v, s') → SameStack s.stack s'.stack) ∧
+    (∀ c ps (s s' : VM ν) v, construct n c ps s = (.ok v, s') → SameStack s.stack s'.stack) ∧
+    (∀ e (s s' : VM ν) v, evalExpr n e s = (.ok v, s') → SameStack s.stack s'.stack) ∧
+    (∀ st (s s' : VM ν) v, evalStmt n st s = (.ok v, s') → SameStack s.stack s'.stack) ∧
+    (∀ b (s s' : VM ν) v, evalPureStmtBlock n b s = (.ok v, s') → SameStack s.stack s'.stack) := by
+  have h := allBal (ν := ν) n
+  refine ⟨fun b ps s s' v hr => ?_, fun f ps s s' v hr => ?_, fun r f ps s s' v hr => ?_,
+    fun c ps s s' v hr => ?_, fun e s s' v hr => ?_, fun st s s' v hr => ?_, fun b s s' v hr => ?_⟩
+  · have := (h.evalExecBlock b ps).same s (by rw [hr]; rfl); rwa [hr] at this
+  · have := (h.execDirectFunction f ps).same s (by rw [hr]; rfl); rwa [hr] at this
+  · have := (h.execMethodFunction r f ps).same s (by rw [hr]; rfl); rwa [hr] at this
+  · have := (h.construct c ps).same s (by rw [hr]; rfl); rwa [hr] at this
+  · have := (h.evalExpr e).same s (by rw [hr]; rfl); rwa [hr] at this
+  · have := (h.evalStmt st).same s (by rw [hr]; rfl); rwa [hr] at this
+  · have := (h.evalPureStmtBlock b).same s (by rw [hr]; rfl); rwa [hr] at this
+
+/-- what `SameStack` says: both empty, or the same frames below a top frame with the same module, kind and receiver -/
+theorem same_stack_means (st st' : List Frame) :
+    SameStack st st' ↔ (st = [] ∧ st' = []) ∨
+      ∃ f f' r, st = f :: r ∧ st' = f' :: r ∧ f'.moduleId = f.moduleId ∧ f'.callType = f.callType ∧ f'.this = f.this :=
+  sameStack_iff st st'
+
+/-- a method or program body never ends with a loop signal — 结束循环 / 继续循环 stop at the body boundary (also when
+raised by a 拦截 handler block) -/
+theorem loop_signal_stops_at_body (n : Nat) (b : Option ExecBlock) (ps : List Addr) (s : VM ν) :
+    (evalExecBlock n b ps s).1 ≠ .err .sigBreak ∧ (evalExecBlock n b ps s).1 ≠ .err .sigContinue := by
+  have h := ((allBal (ν := ν) n).evalExecBlock b ps).nosig s
+  constructor <;> intro hc <;> rw [hc] at h <;> cases h
+
+/-- hence no call, constructor or expression ends with a loop signal: a loop of the caller can never consume a
+signal of a callee … -/
+theorem callee_signal_never_reaches_caller (n : Nat) :
+    (∀ f ps (s : VM ν), (execDirectFunction n f ps s).1 ≠ .err .sigBreak ∧ (execDirectFunction n f ps s).1 ≠ .err .sigContinue) ∧
+    (∀ r f ps (s : VM ν), (execMethodFunction n r f ps s).1 ≠ .err .sigBreak ∧
+      (execMethodFunction n r f ps s).1 ≠ .err .sigContinue) ∧
+    (∀ c ps (s : VM ν), (construct n c ps s).1 ≠ .err .sigBreak ∧ (construct n c ps s).1 ≠ .err .sigContinue) ∧
+    (∀ e (s : VM ν), (evalExpr n e s).1 ≠ .err .sigBreak ∧ (evalExpr n e s).1 ≠ .err .sigContinue) := by
+  have h := allBal (ν := ν) n
+  refine ⟨fun f ps s => ?_, fun r f ps s => ?_, fun c ps s => ?_, fun e s => ?_⟩
+  · have := (h.execDirectFunction f ps).nosig s
+    constructor <;> intro hc <;> rw [hc] at this <;> cases this
+  · have := (h.execMethodFunction r f ps).nosig s
+    constructor <;> intro hc <;> rw [hc] at this <;> cases this
+  · have := (h.construct c ps).nosig s
+    constructor <;> intro hc <;> rw [hc] at this <;> cases this
+  · have := (h.evalExpr e).nosig s
+    constructor <;> intro hc <;> rw [hc] at this <;> cases this
+
+/-- … and the signal a loop does consume was raised by a statement running in the loop's own frame: when a block or
+statement ends with a loop signal, no frame has been added or removed -/
+theorem loop_signal_raised_in_own_frame (n : Nat) (s s' : VM ν) (e : Err) (he : e = .sigBreak ∨ e = .sigContinue) :
+    (∀ b, evalPureStmtBlock n b s = (.err e, s') → SameStack s.stack s'.stack) ∧
+    (∀ st, evalStmt n st s = (.err e, s') → SameStack s.stack s'.stack) := by
+  have h := allBal (ν := ν) n
+  have hsig : okOrSig (Res.err e : Res (Option Addr)) = true ∧ okOrSig (Res.err e : Res Addr) = true := by
+    rcases he with rfl | rfl <;> exact ⟨rfl, rfl⟩
+  constructor
+  · intro b hr
+    have := (h.evalPureStmtBlock b).same s (by rw [hr]; exact hsig.1); rwa [hr] at this
+  · intro st hr
+    have := (h.evalStmt st).same s (by rw [hr]; exact hsig.2); rwa [hr] at this
+
+/-- the current module is always the module of the frame on top of the call stack (−1 without frames): the
+evaluator keeps this on every outcome -/
+theorem module_follows_top_frame (n : Nat) (s : VM ν) (hi : s.csModuleID = topModule s.stack) :
+    (∀ st, (evalStmt n st s).2.csModuleID = topModule (evalStmt n st s).2.stack) ∧
+    (∀ e, (evalExpr n e s).2.csModuleID = topModule (evalExpr n e s).2.stack) ∧
+    (∀ b ps, (evalExecBlock n b ps s).2.csModuleID = topModule (evalExecBlock n b ps s).2.stack) := by
+  have h := allBal (ν := ν) n
+  exact ⟨fun st => (h.evalStmt st).inv s hi, fun e => (h.evalExpr e).inv s hi,
+    fun b ps => (h.evalExecBlock b ps).inv s hi⟩
 
 /-- restoration at the level of the protected body (`evalExecBlock` = a method body or the program body with its
-拦截 handlers): a statement of the body fails with `e` in a state whose stack still carries the frames `extra` of the
-calls that failed; a handler matches and its block runs normally.  Then the body yields a value as if it had
-returned normally, and the call stack (so the call depth and 其), and the current module are exactly those at entry;
-heap cells are only added by the handler / exception value, never the stack.  (Scope depths and the caller's
-variables: `C06Eval.exec_block_restores_scope`, unconditional.) -/
+拦截 handlers): a statement of the body fails with `e` (not a loop signal — those become exceptions first, see
+`loop_signal_becomes_exception`), a handler matches and its block runs normally.  Then the body yields a value as
+if it had returned normally, and the call stack (so the call depth and 其) and the current module are those at
+entry (up to `line` / `ret` of the top frame).  No assumption about what failed calls left on the stack or about
+the handler block.  (Scope depths and the caller's variables: `C06Eval.exec_block_restores_scope`, unconditional.) -/
 theorem catch_restores (n : Nat) (inputs : List Ident) (body : Option (List Stmt))
     (pre post : List (Option Ident × Option (List Stmt))) (i : Ident) (blk : Option (List Stmt))
-    (params : List Addr) (s t1 t2 t3 t4 : VM ν) (e : Err) (ex : Addr) (extra : List Frame) (x : Option Addr)
-    (fr : Frame)
+    (params : List Addr) (s t1 t2 t3 t4 : VM ν) (e : Err) (ex : Addr) (x : Option Addr)
     (hlen : params.length = inputs.length)
     (hpro : (do bindThis (enterScope s); bindInputs inputs params : M ν Unit) (enterScope s) = (.ok (), t1))
-    (hbody : evalStmtBlock (n+1) body t1 = (.err e, t2))
-    (hstk : t2.stack = extra ++ s.stack)
+    (hbody : evalStmtBlock (n+1) body t1 = (.err e, t2)) (he : isSig e = false)
     (hexc : excOf e t2 = (.ok (some ex), t3)) (hcls : HasClass t3 ex i.lit) (hi : IsName i.lit) (hne : i.lit ≠ "")
     (hpre : ∀ c ∈ pre, ∃ j, c.1 = some j ∧ IsName j.lit ∧ j.lit ≠ i.lit)
     (hmod : 0 ≤ s.csModuleID)
-    (hrun : evalPureStmtBlock n blk (handlerEntry s.csModuleID s.stack.length ex t3) = (.ok x, t4))
-    (hbal : t4.stack = fr :: s.stack) :
+    (hrun : evalPureStmtBlock n blk (handlerEntry s.csModuleID s.stack.length ex t3) = (.ok x, t4)) :
     let r := evalExecBlock (n+2) (some (.mk inputs body (pre ++ (some i, blk) :: post))) params s
-    (∃ v, r.1 = .ok v) ∧ r.2.stack = s.stack ∧ r.2.stack.length = s.stack.length ∧
-    r.2.csModuleID = topModule s.stack ∧ getThis r.2 = (.ok (s.stack.head?.bind (·.this)), r.2) ∧
-    r.2.out = t4.out := by
+    (∃ v, r.1 = .ok v) ∧ SameStack s.stack r.2.stack ∧ r.2.stack.length = s.stack.length ∧
+    r.2.csModuleID = topModule s.stack ∧ getThis r.2 = (.ok (s.stack.head?.bind (·.this)), r.2) := by
   intro r
   have hr : r = withScope (execBlockBody (n+1) inputs body (pre ++ (some i, blk) :: post) params) s := by
     show evalExecBlock _ _ _ s = _
     rw [evalExecBlock_eq]
   rw [withScope_run] at hr
   obtain ⟨hes, hec, _⟩ := enterScope_frame s
-  have hbodyrun : execBlockBody (n+1) inputs body (pre ++ (some i, blk) :: post) params (enterScope s) =
-      runHandlerA n s.csModuleID s.stack.length ex blk t3 := by
-    rw [body_error_goes_to_handlers (n+1) inputs body _ params (enterScope s) t1 t2 e hlen hpro hbody, hes, hec]
-    exact handler_matches_first_class n _ _ pre post i blk e ex t2 t3 hexc hcls hi hne hpre
-  have hstk3 : t3.stack = extra ++ s.stack := by
+  -- the prologue keeps the stack; the failing statements only add frames above it
+  have hq : Quiet (do bindThis (enterScope s); bindInputs inputs params : M ν Unit) :=
+    Quiet.bind (Quiet.bindThis _) fun _ => Quiet.bindInputs _ _
+  have ht1 : t1.stack = s.stack := by
+    have := hq.stack (enterScope s); rw [hpro] at this; rw [this, hes]
+  have hext2 : Ext s.stack t2.stack := by
+    have := ((allBal (ν := ν) (n+1)).evalStmtBlock body).ext t1
+    rw [hbody, ht1] at this; exact this
+  have hext3 : Ext s.stack t3.stack := by
     have := (excOf_frame e t2).1
-    rw [hexc] at this
-    rw [this, hstk]
-  obtain ⟨_, ⟨v, hv⟩, h3, h4, h5, h6, _, h8⟩ :=
-    catch_restores_stack n s.csModuleID s.stack.length ex blk t3 t4 extra s.stack x fr hmod hstk3 rfl hrun hbal
+    rw [hexc] at this; rw [this]; exact hext2
+  obtain ⟨⟨v, hv⟩, h3, h4, h5, h6⟩ :=
+    catch_restores_stack n s.csModuleID s.stack.length ex blk t3 t4 s.stack x hmod hext3 rfl hrun
+  have hhandled : handleException (n+1) s.csModuleID s.stack.length (pre ++ (some i, blk) :: post) e t2 =
+      (.ok v, (runHandlerA n s.csModuleID s.stack.length ex blk t3).2) := by
+    rw [handler_matches_first_class n _ _ pre post i blk e ex t2 t3 hexc hcls hi hne hpre]
+    exact Prod.ext hv rfl
+  have hbodyrun : execBlockBody (n+1) inputs body (pre ++ (some i, blk) :: post) params (enterScope s) =
+      (.ok v, (runHandlerA n s.csModuleID s.stack.length ex blk t3).2) := by
+    rw [body_error_goes_to_handlers (n+1) inputs body _ params (enterScope s) t1 t2 e hlen hpro hbody, hes, hec]
+    exact finish_handled _ _ _ _ e t2 _ v he hhandled
   rw [hbodyrun] at hr
-  obtain ⟨f1, f2, _, f4⟩ := exitScope_frame s (runHandlerA n s.csModuleID s.stack.length ex blk t3).2
+  obtain ⟨f1, f2, _, _⟩ := exitScope_frame s (runHandlerA n s.csModuleID s.stack.length ex blk t3).2
   have hr2 : r.2 = exitScope s (runHandlerA n s.csModuleID s.stack.length ex blk t3).2 := by rw [hr]
-  have hr1 : r.1 = (runHandlerA n s.csModuleID s.stack.length ex blk t3).1 := by rw [hr]
-  refine ⟨⟨v, by rw [hr1, hv]⟩, by rw [hr2, f1, h3], by rw [hr2, f1, h3], by rw [hr2, f2, h5], ?_, by rw [hr2, f4, h8]⟩
-  have hstack : r.2.stack = s.stack := by rw [hr2, f1, h3]
-  cases hst : s.stack with
-  | nil => simp [getThis, topFrame, bind, hstack, hst, pure]
-  | cons f rest => rw [getThis_cons r.2 f rest (by rw [hstack, hst])]; rfl
+  have hst : r.2.stack = (runHandlerA n s.csModuleID s.stack.length ex blk t3).2.stack := by rw [hr2, f1]
+  refine ⟨⟨v, by rw [hr]⟩, by rw [hst]; exact h3, by rw [hst]; exact h4, by rw [hr2, f2]; exact h5, ?_⟩
+  exact getThis_of_norm (by rw [hst]; exact h3)
 
 /-- `Function.Exec` turns a runtime error of the body into an exception error (which callers' handlers catch) -/
 theorem function_converts_runtime_error (n : Nat) (exec : Option ExecBlock) (this : Option Addr)
@@ -277,10 +403,23 @@ theorem function_passes_other_errors (n : Nat) (exec : Option ExecBlock) (this :
 section examples
 open ZnVerif.Proofs.Toy
 
-/-- a body `结束循环` raises a signal; it reaches `handleException` with module 0 and depth 1 -/
+/-- a body `结束循环` raises a signal; it reaches `finishBlock` with module 0 and depth 1 … -/
 example : execBlockBody 3 [] (some [.break 0]) [] [] s0 =
-    handleException 3 0 1 [] .sigBreak (evalStmtBlock 3 (some [.break 0]) s0).2 :=
+    finishBlock 3 0 1 [] (.err .sigBreak) (evalStmtBlock 3 (some [.break 0]) s0).2 :=
   body_error_goes_to_handlers 3 [] (some [.break 0]) [] [] s0 s0 _ .sigBreak rfl rfl rfl
+
+/-- … where it becomes an exception error (the fresh 异常 value at address 2), not a signal -/
+example : (execBlockBody 3 [] (some [.break 0]) [] [] s0).1 = .err (.excErr 2) := by
+  rw [body_error_goes_to_handlers 3 [] (some [.break 0]) [] [] s0 s0 _ .sigBreak rfl rfl rfl,
+    (loop_signal_becomes_exception 3 s0.csModuleID s0.stack.length [] _).1]
+  rfl
+
+/-- a runtime fault handled by `拦截 异常`: the handler's value is the body's value -/
+example : ∃ t', finishBlock 3 0 1 [(some ⟨0, "异常"⟩, some [])] (.err (.rt 40)) s0 = (.ok 3, t') :=
+  ⟨_, handled_error_is_body_value 3 0 1 _ (.rt 40) s0 _ 3 rfl rfl⟩
+
+example : ∃ t', finishBlock 3 0 1 [] (.err (.rt 40)) s0 = (.err (.rt 40), t') :=
+  ⟨_, unhandled_error_leaves_body 3 0 1 [] (.rt 40) (.rt 40) s0 _ rfl rfl rfl⟩
 
 /-- thrown 异常 value at address 0; handlers 甲, 异常, and a malformed third one that is never looked at -/
 example : handleException 3 0 1 ([(some ⟨0, "甲"⟩, none)] ++ (some ⟨0, "异常"⟩, some []) :: [(none, none)])
@@ -303,50 +442,64 @@ example : handleException 3 0 1 [(some ⟨0, "异常"⟩, some [])] .sigBreak s0
 
 /-- handler `输出 “x”`: the value is the text cell (address 2); handler without 输出: a fresh 空 (address 2) -/
 example : (runHandlerA 3 0 1 0 (some [.ret 0 (.str 0 "x")]) s0Failed).1 = .ok 2 :=
-  ((handler_value_or_null 3 0 1 0 (some [.ret 0 (.str 0 "x")]) s0Failed _ _ _ _ (by decide) rfl rfl).1 2 rfl).1
+  ((handler_value_or_null 3 0 1 0 (some [.ret 0 (.str 0 "x")]) s0Failed _ _ (by decide) rfl).1 2 rfl).1
+
+example : ∃ fr, (evalPureStmtBlock 3 (some [.ret 0 (.str 0 "x")]) (handlerEntry 0 1 0 s0Failed)).2.stack = fr :: s0.stack ∧
+    fr.this = some 0 := by
+  obtain ⟨fr, h1, _, _, h4⟩ := handler_block_keeps_its_frame 3 0 1 0 (some [.ret 0 (.str 0 "x")]) s0Failed _ _ rfl
+  exact ⟨fr, h1, h4⟩
 
 example : (runHandlerA 3 0 1 0 (some []) s0Failed).1 = .ok 2 ∧
     (runHandlerA 3 0 1 0 (some []) s0Failed).2.heap = #[.exc "boom", .null, .null] :=
-  (handler_value_or_null 3 0 1 0 (some []) s0Failed _ _ _ _ (by decide) rfl rfl).2 rfl
+  (handler_value_or_null 3 0 1 0 (some []) s0Failed _ _ (by decide) rfl).2 rfl
 
 /-- a call failed inside the protected block (its frame is still there); after the handler the stack is the script
 frame alone, the module is 0 and there is no receiver -/
-example : (runHandlerA 3 0 1 0 (some []) s0Failed).2.stack = s0.stack ∧
+example : SameStack s0.stack (runHandlerA 3 0 1 0 (some []) s0Failed).2.stack ∧
     (runHandlerA 3 0 1 0 (some []) s0Failed).2.csModuleID = 0 :=
-  let h := catch_restores_stack 3 0 1 0 (some []) s0Failed _ [{ moduleId := 0, callType := 2 }] s0.stack _ _
-    (by decide) rfl rfl rfl rfl
-  ⟨h.2.2.1, h.2.2.2.2.1⟩
+  let h := catch_restores_stack 3 0 1 0 (some []) s0Failed _ s0.stack _
+    (by decide) ⟨[{ moduleId := 0, callType := 2 }], s0.stack, rfl, rfl⟩ rfl rfl
+  ⟨h.2.1, h.2.2.2.1⟩
 
 /-- a method with no inputs called with one argument: error 51 inside becomes an exception error outside -/
 example : (execFunction 3 (.user (some (.mk [] (some []) []))) none [7] s0).1 = .err (.excErr 2) := by
   rw [function_converts_runtime_error 2 (some (.mk [] (some []) [])) none [7] s0 _ 51 rfl]
   rfl
 
-example : (execFunction 5 (.user (some (.mk [] (some [.break 0]) []))) none [] s0).1 = .err .sigBreak := by
-  rw [function_passes_other_errors 4 (some (.mk [] (some [.break 0]) [])) none [] s0 _ .sigBreak rfl
+/-- a method body `结束循环`: the exception error the body made of the signal passes through `Function.Exec` -/
+example : (execFunction 5 (.user (some (.mk [] (some [.break 0]) []))) none [] s0).1 = .err (.excErr 2) := by
+  rw [function_passes_other_errors 4 (some (.mk [] (some [.break 0]) [])) none [] s0 _ (.excErr 2) rfl
     ⟨(by intro c h; cases h), (by intro h; cases h)⟩]
 
-/-- `抛出异常：“boom”`-like failure inside a method body with a failed inner call still on the stack, handler `拦截 异常`
-without 输出: the body yields a fresh 空, stack, module and 其 are those of the entry -/
+/-- a runtime fault (code 80) inside a body with handler `拦截 异常` without 输出: the body yields a fresh 空; stack,
+module and 其 are those of the entry -/
 example :
     let r := evalExecBlock 6 (some (.mk [] (some [.expr (.arr 0 [.nil])]) [(some ⟨0, "异常"⟩, some [])])) [] s0
-    r.1 = .ok 3 ∧ r.2.stack = s0.stack ∧ r.2.csModuleID = 0 := by
+    r.1 = .ok 3 ∧ SameStack s0.stack r.2.stack ∧ r.2.csModuleID = 0 := by
   have h := catch_restores 4 [] (some [.expr (.arr 0 [.nil])]) [] [] ⟨0, "异常"⟩ (some []) [] s0 (enterScope s0)
     (evalStmtBlock 5 (some [.expr (.arr 0 [.nil])]) (enterScope s0)).2
     (excOf (.rt 80) (evalStmtBlock 5 (some [.expr (.arr 0 [.nil])]) (enterScope s0)).2).2
     (evalPureStmtBlock 4 (some []) (handlerEntry 0 1 2
       (excOf (.rt 80) (evalStmtBlock 5 (some [.expr (.arr 0 [.nil])]) (enterScope s0)).2).2)).2
-    (.rt 80) 2 [] none { moduleId := 0, callType := 3, this := some 2 }
+    (.rt 80) 2 none
     rfl rfl rfl rfl rfl (Or.inl ⟨_, rfl, rfl⟩) (by decide) (by decide)
-    (by intro c hc; cases hc) (by decide) rfl rfl
+    (by intro c hc; cases hc) (by decide) rfl
   exact ⟨rfl, h.2.1, h.2.2.2.1⟩
 
-/-- why `catch_restores_stack` has to assume the handler block's own balance (`hbal`), and `C08.call_result_is_return`
-the callee's: a loop signal crosses a method boundary.  `g` is `如何g？ 结束循环`; the call fails with the signal and —
-as for every failed call — its frame stays on the stack.  An enclosing 每当 loop then consumes the signal and goes on
-with that frame still there (the real interpreter does the same: probe in the final report). -/
-example : (execDirectFunction 7 "g" [] sG).1 = .err .sigBreak ∧
-    (execDirectFunction 7 "g" [] sG).2.stack.length = sG.stack.length + 1 := ⟨rfl, rfl⟩
+/-- `g` is `如何g？ 结束循环`: the call fails with an exception error, not with a signal (before the repair the signal
+crossed the method boundary and an enclosing 每当 of the caller consumed it) -/
+example : (execDirectFunction 7 "g" [] sG).1 = .err (.excErr 1) := rfl
+
+/-- a successful call of `f` (输出 “x”) from `sF`: the stack afterwards is the caller's -/
+example : SameStack sF.stack (execDirectFunction 7 "f" [] sF).2.stack :=
+  (stack_balanced_on_success 7).2.1 "f" [] sF _ 1 rfl
+
+/-- `结束循环` as a statement of a block: the signal leaves the block with the stack as it was -/
+example : SameStack s0.stack (evalPureStmtBlock 3 (some [.break 0]) s0).2.stack :=
+  (loop_signal_raised_in_own_frame 3 s0 _ .sigBreak (Or.inl rfl)).1 (some [.break 0]) rfl
+
+example : (evalStmt 3 (.empty 0) s0).2.csModuleID = topModule (evalStmt 3 (.empty 0) s0).2.stack :=
+  (module_follows_top_frame 3 s0 rfl).1 _
 
 /-- a failing first statement: the second (which would panic) never runs -/
 example : (stmtsLoop (evalStmt 1) none [.break 0, .nil] s0).1 = .err .sigBreak := by
